@@ -354,6 +354,9 @@ impl Prop for Units {
             let whole = case_line(c);
             let range = match (&c.shape, c.via) {
                 (Shape::NameMap(_), _) => None,
+                // 3: only the AMOUNT is held in the name (`load = 12` / `load in to cm`); needs the blank before the unit
+                (_, 3) if c.glue & 1 == 0 => Some((0, 1)),
+                (_, 3) => None,
                 (_, 1) => Some((0, 2)),
                 (Shape::AddSub(..), _) | (Shape::Ratio(..), _) => Some((3, 5)),
                 _ => Some((0, 2)),
@@ -473,7 +476,7 @@ pub fn shape_strategy() -> impl Strategy<Value = Shape> {
 }
 
 pub fn case_strategy() -> impl Strategy<Value = Case> {
-    (shape_strategy(), prop_oneof![2 => Just(0usize), 2 => 1usize..4], prop_oneof![3 => Just(0u8), 1 => 1u8..4], prop_oneof![3 => Just(0u8), 1 => 1u8..3]).prop_map(|(shape, seps, glue, via)| Case { shape, seps, glue, via })
+    (shape_strategy(), prop_oneof![2 => Just(0usize), 2 => 1usize..4], prop_oneof![3 => Just(0u8), 1 => 1u8..4], prop_oneof![3 => Just(0u8), 1 => 1u8..4]).prop_map(|(shape, seps, glue, via)| Case { shape, seps, glue, via })
 }
 
 /// all ordered pairs of units x amounts x separator conventions (+ the name map)
@@ -500,7 +503,7 @@ pub fn pair_table(amounts: &[f64], seps: &[usize]) -> Vec<Case> {
 }
 
 pub fn run(ctx: &Ctx) {
-    ctx.rule("ALL ordered pairs of the 33 configured units (within and across the metric/imperial families, and across kinds) enumerated x amounts x separator conventions, every configured spelling (69 names) checked against a by-name definition table; generated: a U1 to|in|into|as U2, chains U1->U2->U3 (incl. back to U1), a U1 +- b U2, a U1 * n, a U1 / n, a U1 / b U2, amounts +-[1e-6, 1e12] with fractions and thousands groups, 4 separator conventions; a conversion applied to a sum: 'a U1 +- b U2 to U3', also with b U2 held in a name bound on an earlier line (expected: the SUM converted); metamorphic step (a quarter of the cases): the first or second quantity also held in a name bound on an earlier line; oracle: hard-coded SI table in the harness (never read from config.json): same kind -> amount*f(U1)/f(U2) in unit U2 (family + index read from the AST), different kinds -> the result is not a quantity of another kind; relations on the real code: linearity conv(3a)=3conv(a), transitivity U1->U2->U3 = U1->U3, inverse U1->U2->U1 = a; non-trivial = U1 != U2 (or a different-kind pair, arithmetic between different units)");
+    ctx.rule("ALL ordered pairs of the 33 configured units (within and across the metric/imperial families, and across kinds) enumerated x amounts x separator conventions, every configured spelling (69 names) checked against a by-name definition table; generated: a U1 to|in|into|as U2, chains U1->U2->U3 (incl. back to U1), a U1 +- b U2, a U1 * n, a U1 / n, a U1 / b U2, amounts +-[1e-6, 1e12] with fractions and thousands groups, 4 separator conventions; a conversion applied to a sum: 'a U1 +- b U2 to U3', also with b U2 held in a name bound on an earlier line (expected: the SUM converted); metamorphic step (a quarter of the cases): the first or second quantity - or only the amount of the first - also held in a name bound on an earlier line; oracle: hard-coded SI table in the harness (never read from config.json): same kind -> amount*f(U1)/f(U2) in unit U2 (family + index read from the AST), different kinds -> the result is not a quantity of another kind; relations on the real code: linearity conv(3a)=3conv(a), transitivity U1->U2->U3 = U1->U3, inverse U1->U2->U1 = a; non-trivial = U1 != U2 (or a different-kind pair, arithmetic between different units)");
     ctx.assume("target unit names are written exactly as configured (the target lookup is case-sensitive); tolerance 1e-9 relative (the library multiplies step by step along the chain)");
     match ctx.tier {
         crate::engine::Tier::Quick => ctx.run_table(&Units, "all-unit-pairs", pair_table(&[1.0, 2.5], &[0]), true),
